@@ -221,7 +221,7 @@ class DiagonalReplicated(DiagonalReplicatedOperator, LinearOperator):
             **kwargs,
         )
 
-        self._adj = self.jaxmap(op.adj, in_axes=self.input_axis, out_axes=self.output_axis)
+        self._adj = self.jaxmap(op.adj, in_axes=self.output_axis, out_axes=self.input_axis)
 
 
 def linop_over_axes(
